@@ -563,7 +563,7 @@ impl<'a> Judge<'a> {
                 printable(content, 600).replace('\n', "\\n")
             )
         };
-        let mut fail = |sig: String, detail: String, known: &mut Vec<String>| -> Option<Verdict> {
+        let fail = |sig: String, detail: String, known: &mut Vec<String>| -> Option<Verdict> {
             if vcore::kf::is_open_global(&sig) {
                 if !known.contains(&sig) {
                     known.push(sig);
@@ -1375,15 +1375,12 @@ impl Check for C20 {
     }
     fn fixed_cases(&self, _tier: Tier) -> Vec<Case> {
         // one small database per format: exhaustive truncation + located fields
-        let mut t = Tape::new(&[]);
-        let (db, _) = gen_db(&mut t, &db_opts(Tier::Quick));
         let raw = vec![
             "CREATE TABLE T1 (ID INTEGER NOT NULL, C1 VARCHAR(20), C2 DOUBLE PRECISION, C3 DATE, C4 BOOLEAN)".to_string(),
             "CREATE INDEX IX1 ON T1 (C1 ASC, ID DESC)".to_string(),
             "INSERT INTO T1 VALUES (1, 'apple', 1.5, DATE '2001-02-03', TRUE), (2, 'it''s', -0.25, NULL, FALSE), (3, NULL, 1e300, DATE '1999-12-31', NULL)".to_string(),
         ];
         let fixed_db = DbSpec { raw: Some(raw), ..DbSpec::default() };
-        let _ = db;
         let mut v = Vec::new();
         for fmt in [Fmt::Binary, Fmt::Compressed, Fmt::Json, Fmt::Sql] {
             for inner in [false, true] {
